@@ -334,3 +334,48 @@ def repeat_tail(k, times, per_case):
                 done += m
                 i += 1
     return expand
+
+
+# ------------------------------------------------------------------- C06
+def c06_fuzz(ncases, per_case):
+    cfgs = [None, (octk(32), "HS256"), (asym("rsa2048a"), "RS256"), (asym("p256a"), "ES256"),
+            (asym("ed25519a"), "EdDSA"), (asym("p521a"), "ES512"), (octk(64), "HS512"), (asym("rsa2048a"), "PS256")]
+
+    def gen(seed):
+        rnd = random.Random(seed * 2147483647 + 6)
+        interesting = [0x2e, 0x3d, 0x2d, 0x5f, 0x2b, 0x2f, 0x41, 0x7b, 0x22, 0x80, 0xff, 0x01, 0x20, 0x0a]
+        for ci in range(ncases):
+            cfg = cfgs[ci % len(cfgs)]
+            prov = "openssl" if (ci // len(cfgs)) % 2 == 0 else "gnutls"
+            ops = [dict(op="Ops", name=prov)]
+            if cfg is None:
+                ops += [dict(op="BNew", b=0), dict(op="BMap", b=0, k="set", which="clm", map=0, v=val("str", "sub", "fuzz")),
+                        dict(op="Generate", b=0, slot=0, lite=1), dict(op="CNew", c=0)]
+            else:
+                k, a = cfg
+                ops += [dict(op="Load", ring=0, via="create", doc="keys", keys=[k]), dict(op="BNew", b=0),
+                        dict(op="BSetKey", b=0, alg=a, ring=0, key=0),
+                        dict(op="BMap", b=0, k="set", which="clm", map=0, v=val("str", "sub", "fuzz")),
+                        dict(op="Generate", b=0, slot=0, lite=1), dict(op="CNew", c=0),
+                        dict(op="CSetKey", c=0, alg=a, ring=0, key=0)]
+            for _ in range(per_case):
+                r = rnd.random()
+                if r < 0.2:
+                    n = rnd.choice([0, 1, 2, 3, 4, 5, 7, 8, 16, 33, 100, 1000]) if rnd.random() < 0.95 else rnd.choice([20000, 65536])
+                    if n > 2000:
+                        b = bytes(x or 1 for x in rnd.randbytes(n))
+                    else:
+                        b = bytes(rnd.choice(interesting) if rnd.random() < 0.4 else rnd.randrange(1, 256) for _ in range(n))
+                    tok = dict(src="raw", hex=b.hex())
+                else:
+                    muts = []
+                    for _ in range(rnd.choice([1, 1, 1, 2, 3, 6])):
+                        kind = rnd.choice(["set", "set", "del", "ins", "ins", "trunc", "pad", "dup"])
+                        if kind == "pad" and rnd.random() < 0.9:
+                            kind = "set"
+                        byte = rnd.choice(interesting) if rnd.random() < 0.6 else rnd.randrange(1, 256)
+                        muts.append([kind, rnd.randrange(0, 1000001), byte])
+                    tok = dict(src="mut", slot=0, muts=muts)
+                ops.append(dict(op="Verify", c=0, tok=tok))
+            yield ops
+    return gen
